@@ -76,3 +76,20 @@ package bft
 //@ func (*BFT).StartPrecommitVotePhase
 //@   callsite SendToProposer requires[checked] msg != nil && !interrupt
 //@   callsite SendToProposer requires[locked] b.HighQC != nil && b.HighQC == msg.Qc && b.HighQC.Block == b.Block && b.HighQC.Results == b.Results
+
+// ---- C01: only signed consensus messages are counted ----------------------------------------------------------
+// a replica's vote or a leader's message reaches the vote / proposal sets only after the signature in its wrapper
+// verified, under the key in that wrapper, over the message's own sign bytes
+//@ func checkSignature
+//@   ensures[verified] result == nil ==> signature != nil && sigVerifies(bytes(signature.PublicKey), signBytesOf(sb), bytes(signature.Signature))
+//@ func (*BFT).CheckReplicaMessage
+//@   ensures[signed] result == nil ==> x != nil && x.Qc != nil && x.Signature != nil && sigVerifies(bytes(x.Signature.PublicKey), signBytesOf(x), bytes(x.Signature.Signature))
+//@ func (*Message).checkBasic
+//@   ensures[signed] result == nil ==> x != nil && x.Signature != nil && sigVerifies(bytes(x.Signature.PublicKey), signBytesOf(x), bytes(x.Signature.Signature))
+//@ func (*BFT).CheckProposerMessage
+//@   ensures[signed] err == nil ==> x != nil && x.Signature != nil && sigVerifies(bytes(x.Signature.PublicKey), signBytesOf(x), bytes(x.Signature.Signature))
+//@ func (*BFT).HandleMessage
+//@   callsite AddProposal requires[signed] sigVerifies(bytes(msg.Signature.PublicKey), signBytesOf(msg), bytes(msg.Signature.Signature))
+//@   callsite AddPartialQC requires[signed] sigVerifies(bytes(msg.Signature.PublicKey), signBytesOf(msg), bytes(msg.Signature.Signature))
+//@   callsite AddVote requires[signed] sigVerifies(bytes(msg.Signature.PublicKey), signBytesOf(msg), bytes(msg.Signature.Signature))
+//@   callsite AddPacemakerMessage requires[signed] sigVerifies(bytes(msg.Signature.PublicKey), signBytesOf(msg), bytes(msg.Signature.Signature))
